@@ -19,7 +19,7 @@ type c16Conn struct {
 	DelayMs  int    `json:"reply_delay_ms"`
 	Stanzas  int    `json:"stanzas_after"`
 	Trailing bool   `json:"stanzas_right_behind_the_reply,omitempty"` // the server goes on sending in the same write, whatever it answered
-	EndBy    string `json:"session_ended_by,omitempty"`               // how an established session ends before the next connection: close | cut
+	EndBy    string `json:"session_ended_by,omitempty"`               // how an established session ends before the next connection: close | cut | stream-error
 }
 
 type c16Scenario struct {
@@ -64,7 +64,7 @@ func init() {
 		Real:  []string{"xmpp.Component (Connect/Resume, handshake, recv)", "xmpp.XMPPTransport", "stanza.InitStream / NextPacket"},
 		Stub:  []string{"TCP (simnet)", "XMPP component server (scripted model; digest recomputed by the harness with crypto/sha1)", "clock (synctest)", "goroutine scheduling (token scheduler)"},
 		Run:   runC16,
-		Reach: []string{"c16.reconnect"},
+		Reach: []string{"c16.reconnect", "c16.reconnected_from_the_stream_error_callback"},
 	})
 }
 
@@ -79,10 +79,10 @@ func runC16(e *Engine, g G, o RunOpt) RunInfo {
 		c.DelayMs = []int{0, 0, 20, 3000}[g.N("delay", 4)]
 		c.Stanzas = g.Range("stanzas", 0, 4)
 		c.Trailing = g.Pct("trailing", 30)
-		c.EndBy = []string{"close", "cut"}[g.N("endby", 2)]
+		c.EndBy = []string{"close", "cut", "stream-error"}[g.N("endby", 3)]
 		sc.Conns = append(sc.Conns, c)
 	}
-	sc.ReconnectOnStreamError = g.Pct("reconnect-on-stream-error", 25)
+	sc.ReconnectOnStreamError = g.Pct("reconnect-on-stream-error", 40)
 	sc.Seg, sc.Latency = netModes(g, e)
 
 	var scripts []NegScript
@@ -168,21 +168,36 @@ func runC16(e *Engine, g G, o RunOpt) RunInfo {
 		if err := w.Create(); err != nil {
 			return
 		}
+		// the application may have made the next connection itself, from the StreamError callback
+		handlerDid := false
+		var handlerErr error
+		preEv, preHandled := 0, 0
 		if sc.ReconnectOnStreamError {
 			w.OnEvent = func(ev xmpp.Event) {
 				if xmpp.VerifEventState(ev) == xmpp.StateStreamError && ev.StreamError != "conflict" {
-					err := w.Comp.Resume()
-					e.Logf("app.reconnect", "Resume from the StreamError callback: %v", err)
+					handlerErr = w.Comp.Resume()
+					handlerDid = true
+					e.Logf("app.reconnect", "Resume from the StreamError callback: %v", handlerErr)
+					e.Probe("c16.reconnected_from_the_stream_error_callback")
 				}
 			}
 		}
 		msg := 0
 		for i, c := range sc.Conns {
-			at := &attempt{}
-			atts[i] = at
+			at := atts[i]
+			if at == nil {
+				at = &attempt{}
+				atts[i] = at
+			}
 			evBefore := len(w.Events)
 			handledBefore := len(w.Handled)
-			at.err, _ = e.Call("Component.Connect", w.Comp.Connect)
+			if handlerDid {
+				handlerDid = false
+				at.err = handlerErr
+				evBefore, handledBefore = preEv, preHandled
+			} else {
+				at.err, _ = e.Call("Component.Connect", w.Comp.Connect)
+			}
 			at.state = xmpp.VerifComponentState(w.Comp)
 			for _, ev := range w.Events[evBefore:] {
 				if ev.State == xmpp.StateSessionEstablished {
@@ -214,11 +229,21 @@ func runC16(e *Engine, g G, o RunOpt) RunInfo {
 			}
 			// end this connection before the component connects again
 			if !conn.Dead {
-				if c.EndBy == "close" {
-					conn.CloseGracefully()
-				} else {
+				switch {
+				case c.EndBy == "stream-error" && conn.Established != "":
+					// the server ends the session with a stream error; an application that reconnects from
+					// the callback reaches the next scripted connection from there
+					atts[i+1] = &attempt{}
+					preEv, preHandled = len(w.Events), len(w.Handled)
+					conn.Send("<stream:error><system-shutdown xmlns='" + nsStreams + "'/></stream:error></stream:stream>")
+					e.Yield("srv.closing")
+					conn.Close()
+					e.Sleep(20 * time.Second)
+				case c.EndBy == "cut":
 					conn.Pipe.Cli.CutAt = conn.End.TotalWritten
 					conn.Pipe.Cli.CutErr = io.EOF
+				default:
+					conn.CloseGracefully()
 				}
 			}
 			e.Sleep(20 * time.Second)
